@@ -1,18 +1,20 @@
-INIT Init
-NEXT MCNext
+INIT SInit
+NEXT SNext
 CONSTANTS
-  Stacks <- StackFull1
-  Indeps <- OnlyIndep
+  Stacks <- Stacks2
+  Indeps <- Both
   Targets <- AllTargets
-  MaxHooks = 0
+  MaxHooks = 1
   InitRegs <- NoRegs
   RegClasses <- C4RegClasses
-  RegBehs <- C4RegBehs
-  MaxRegs = 2
+  RegBehs <- C4RegBehsAll
+  MaxRegs = 4
   RaiseClasses <- C4Raise
   RenderClasses <- C4Render
   Mro <- MCMro
   StatusOf <- MCStatus
+  OwnVary <- MCOwnVary
+  MaxReqs = 3
   WrongDesign = "none"
-  MaxFaults = 1
+  MaxFaults = 3
 INVARIANT Emit
